@@ -200,6 +200,32 @@ def rule_P1(ctx):
     return res
 
 
+def _expand_bool_locals(f, fg, atoms):
+    """Replace truthy/falsy atoms on a local that is defined once by a test expression with
+    that test (so 'ok = status in X; if not ok and ...' reads like the inlined form)."""
+    def expand(a):
+        if a[0] in ("truthy", "falsy") and isinstance(a[1], str) and a[1].isidentifier():
+            ds = _defs(f, a[1])
+            if len(ds) == 1 and isinstance(ds[0].value, (ast.Compare, ast.BoolOp, ast.UnaryOp)):
+                sub = fg.norm.conj(ds[0].value, a[0] == "truthy")
+                return list(sub)
+        return [a]
+
+    out = []
+    for a in atoms:
+        if a[0] == "or":
+            alts = []
+            for alt in a[1]:
+                na = []
+                for x in alt:
+                    na.extend(expand(x))
+                alts.append(tuple(na))
+            out.append(("or", tuple(alts)))
+        else:
+            out.extend(expand(a))
+    return out
+
+
 # ====================================================================== P2
 def rule_P2(ctx):
     _PROG["prog"] = ctx.prog
@@ -215,7 +241,7 @@ def rule_P2(ctx):
         raise AnalysisError("get_next_tasks: rendering loop not found")
     rem_names = set()
     for lp in loops:
-        atoms = fg.atoms(lp)
+        atoms = _expand_bool_locals(f, fg, fg.atoms(lp))
         inst = ("gate", norm_src(lp))
         gate = None
         for a in atoms:
@@ -371,6 +397,32 @@ def _siblings_only(e):
     return True, ""
 
 
+def call_sites_of(ctx, f):
+    a = ctx.absint
+    out = []
+    for (caller, nid), callees in a.call_edges.items():
+        if f.qualname in callees:
+            out.append(a.call_nodes[nid])
+    return out
+
+
+def chain_guards(ctx, f, node, depth=0):
+    """[(function, atom)] in force at node: its own guards plus, for a private helper, the
+    guards common to every call site of the helper (accumulated up the call chain)."""
+    fg = FuncGuards(ctx.prog, f)
+    out = [(f, a) for a in fg.atoms(node)]
+    if depth < 3 and f.name.startswith("_") and not f.name.startswith("__"):
+        sites = [(g, n) for g, n in call_sites_of(ctx, f) if g is not f]
+        if sites:
+            common = None
+            for g, n in sites:
+                atoms = chain_guards(ctx, g, n, depth + 1)
+                keyed = {(x[0].qualname, x[1]): x for x in atoms}
+                common = keyed if common is None else {k: v for k, v in common.items() if k in keyed}
+            out.extend((common or {}).values())
+    return out
+
+
 # ====================================================================== P3
 def rule_P3(ctx):
     res = RuleResult("P3", "a task is staged only as a start task, for a retry, for a rerun, or "
@@ -387,7 +439,7 @@ def rule_P3(ctx):
     for f, node in sorted(sites, key=lambda x: (x[0].qualname, x[1].lineno)):
         inst = (f.qualname, norm_src(node))
         fg = FuncGuards(prog, f)
-        atoms = fg.atoms(node)
+        atoms = chain_guards(ctx, f, node)
         why = _staging_justified(ctx, f, fg, node, atoms)
         if why[0]:
             res.holds(inst, why[1])
@@ -425,7 +477,7 @@ def rule_P3(ctx):
         if e.func is uts and e.path[:3] == ("WS", "staged", "*") and e.path[3:4] in (
                 ("ctxs",), ("prev",)) and e.op in ("extend", "append", "setitem"):
             inst = (uts.qualname, norm_src(e.node))
-            ok, why = _criteria_guard(ctx, uts, fg, e.node, fg.atoms(e.node))
+            ok, why = _criteria_guard(ctx, uts, fg, e.node, chain_guards(ctx, uts, e.node))
             if ok:
                 res.holds(inst, why)
             else:
@@ -444,7 +496,7 @@ def _staging_justified(ctx, f, fg, node, atoms):
         return True, "start task from graph.roots"
     # (ii) retry
     if "retry" in kw:
-        if any(a[0] == "==" and a[2] == "retrying" for a in atoms):
+        if any(a[0] == "==" and a[2] == "retrying" for _, a in atoms):
             return True, "retry re-stage under 'new status == retrying'"
         return False, "re-staged with a retry record outside the 'retrying' branch"
     # (iii) rerun
@@ -459,16 +511,16 @@ def _staging_justified(ctx, f, fg, node, atoms):
     return _criteria_guard(ctx, f, fg, node, atoms)
 
 
-def _criteria_guard(ctx, f, fg, node, atoms):
+def _criteria_guard(ctx, f0, fg0, node, atoms):
     prog = ctx.prog
-    for a in atoms:
+    for f, a in atoms:
         if a[0] != "truthy" or "next" not in a[1]:
             continue
         # the guard is a read of RECORD.next[<transition>]; find its assignment in the same loop
         for s in ast.walk(f.node):
             if isinstance(s, ast.Assign) and len(s.targets) == 1 and isinstance(
                     s.targets[0], ast.Subscript) and unparse(s.targets[0]) == a[1] and \
-                    textually_before(s, node):
+                    (f is not f0 or textually_before(s, node)):
                 v = s.value
                 if not (isinstance(v, ast.Call) and isinstance(v.func, ast.Name)
                         and v.func.id == "all" and v.args):
@@ -503,7 +555,7 @@ def _criteria_guard(ctx, f, fg, node, atoms):
                 return True, "under all(criteria) of this transition evaluated on the task's " \
                              "actual status/result"
     return False, "without the guard that this transition's criteria evaluated true " \
-                  "(guards: %s)" % fmt_atoms(atoms)
+                  "(guards: %s)" % fmt_atoms([a for _, a in atoms])
 
 
 # ====================================================================== P4
@@ -780,12 +832,33 @@ def rule_P6(ctx):
     tallies = [e for e in effects_of(ctx, UTS) if e.func is f and e.path[-1:] == ("tally",)]
     restage = [c for c in calls_in(f.node) if callee_name(c) == "add_staged_task"
                and "retry" in {k.arg for k in c.keywords}]
+    helper_restage = None
+    if not restage:
+        # the re-stage may have been extracted into a private helper called from here
+        for c in calls_in(f.node):
+            cn = callee_name(c)
+            h = prog.find_function("conducting.WorkflowConductor.%s" % cn) if cn and cn.startswith("_") else None
+            if h is not None:
+                hs = [x for x in calls_in(h.node) if callee_name(x) == "add_staged_task"
+                      and "retry" in {k.arg for k in x.keywords}]
+                if hs:
+                    restage = [c]
+                    helper_restage = (h, hs[0], c)
     if not tallies or not restage:
         res.violated(("tally",), _f("P6", f, f.node, "tally / re-stage",
                                     "retry tally increment or re-stage with retry= vanished"))
     else:
         gt, gs = set(fg.atoms(tallies[0].node)), set(fg.atoms(restage[0]))
         rkw = {k.arg: k.value for k in restage[0].keywords}.get("retry")
+        if helper_restage is not None:
+            h, hcall, outer = helper_restage
+            rk = {k.arg: k.value for k in hcall.keywords}.get("retry")
+            rkw = rk
+            # map the helper's parameter back to the caller's argument
+            if isinstance(rk, ast.Subscript) and isinstance(rk.value, ast.Name) and rk.value.id in h.params:
+                idx = h.params.index(rk.value.id) - 1
+                if 0 <= idx < len(outer.args):
+                    rkw = ast.Subscript(value=outer.args[idx], slice=rk.slice, ctx=ast.Load())
         own = isinstance(rkw, ast.Subscript) and unparse(rkw).replace('"', "'").endswith("['retry']") \
             and unparse(rkw.value) == unparse(tallies[0].node.target.value.value) if isinstance(
                 tallies[0].node, ast.AugAssign) and isinstance(tallies[0].node.target, ast.Subscript) \
@@ -849,7 +922,12 @@ def rule_P7(ctx):
         ok = False
         why = "guards: %s" % fmt_atoms(atoms)
         for a in atoms:
-            if a[0] == ">=" and ".count(True)" in a[1] and isinstance(a[2], tuple):
+            lhs_txt = a[1] if len(a) > 1 and isinstance(a[1], str) else ""
+            if a[0] == ">=" and ".count(True)" not in lhs_txt and lhs_txt.isidentifier():
+                lds = _defs(f, lhs_txt)
+                if len(lds) == 1:
+                    lhs_txt = unparse(lds[0].value)
+            if a[0] == ">=" and ".count(True)" in lhs_txt and isinstance(a[2], tuple):
                 req = a[2][1]
                 ds = _defs(f, req)
                 if len(ds) == 1 and isinstance(ds[0].value, ast.IfExp):
